@@ -443,13 +443,18 @@ func runPipeCtl(c *ctx) error {
 			return err
 		}
 	}
-	if want("C03", "C07", "C09") {
+	if want("C03", "C07", "C09", "C10") {
 		if err := ctlRaces(c, file); err != nil {
 			return err
 		}
 	}
 	if want("C05") {
 		if err := ctlJoinCopies(c, file); err != nil {
+			return err
+		}
+	}
+	if want("C17", "C04", "C05") {
+		if err := ctlUplinkThenJoin(c, file); err != nil {
 			return err
 		}
 	}
